@@ -60,8 +60,8 @@ func (g *Gen) specialCall(fr *Frame, st *State, site ssa.Instruction, c *ssa.Cal
 	switch key {
 	case "fmt.Errorf":
 		g.declIs()
-		res := g.freshVal(fr.id+"err", resTy())
-		g.vc.assume("", fmt.Sprintf("(not (= %s 0))", res.T))
+		// a newly allocated error value: distinct from every error that existed before (sentinels included)
+		res := Val{T: g.newRef(fr.id + "err"), S: "Int", Ty: resTy()}
 		var wrapped []string
 		format, haveFormat := "", false
 		if k, ok := c.Args[0].(*ssa.Const); ok && k.Value != nil && k.Value.Kind() == constant.String {
@@ -111,8 +111,7 @@ func (g *Gen) specialCall(fr *Frame, st *State, site ssa.Instruction, c *ssa.Cal
 		return res, true
 	case "errors.New":
 		g.declIs()
-		res := g.freshVal(fr.id+"err", resTy())
-		g.vc.assume("", fmt.Sprintf("(and (not (= %s 0)) (fresh$ %s))", res.T, res.T))
+		res := Val{T: g.newRef(fr.id + "err"), S: "Int", Ty: resTy()}
 		g.vc.assume("", fmt.Sprintf("(forall ((t Int)) (! (= (p$Is %s t) (= %s t)) :pattern ((p$Is %s t))))", res.T, res.T, res.T))
 		return res, true
 	case "errors.Is":
